@@ -53,6 +53,8 @@ def lit_over(rng, w, params, pn):
 def insert_unsupported(rng, w, act, form):
     """mutates act (dict name/params/pre/eff) ; returns False if the form cannot be built in this world"""
     params = act["params"]
+    if not params:
+        return False  # the forms below are built over a parameter of the action
     unary = [p for p, s in w.preds.items() if len(s) == 1 and var_of(rng, w, params, s[0][1])]
     binary = [p for p, s in w.preds.items() if len(s) == 2 and all(var_of(rng, w, params, t) for _, t in s)]
     l1 = lit_over(rng, w, params, rng.choice(unary)) if unary else None
@@ -427,7 +429,7 @@ def run(ctx):
         form, affected = None, None
         if rng.random() < 0.6:
             form = UNSUPPORTED[(i * ctx.nshards + ctx.shard) % len(UNSUPPORTED)]
-            act = rng.choice(w.actions)
+            act = rng.choice([a for a in w.actions if a["params"]] or w.actions)
             if insert_unsupported(rng, w, act, form):
                 affected = act["name"]
             else:
